@@ -306,31 +306,82 @@ func expandBoolPhi(g Guard, depth int) []Guard {
 		}
 		break
 	}
-	ph, ok := cond.(*ssa.Phi)
-	if !ok || depth <= 0 || !isBool(ph.Type()) {
+	if depth <= 0 {
 		return nil
 	}
-	k, n := -1, 0
-	for i, e := range ph.Edges {
-		if c, isC := e.(*ssa.Const); isC && c.Value != nil && constant.BoolVal(c.Value) == !pol {
-			continue // this edge would give the opposite value
+	var ph *ssa.Phi
+	var compatible func(e ssa.Value) (bool, bool) // (edge can give the known value, edge is decided)
+	switch x := cond.(type) {
+	case *ssa.Phi:
+		if !isBool(x.Type()) {
+			return nil
 		}
-		k = i
-		n++
-	}
-	if n != 1 {
+		ph = x
+		compatible = func(e ssa.Value) (bool, bool) {
+			if c, isC := e.(*ssa.Const); isC && c.Value != nil {
+				return constant.BoolVal(c.Value) == pol, true
+			}
+			return true, false
+		}
+	case *ssa.BinOp:
+		// p == nil / p != nil on a phi whose edges are nil constants and freshly built (non-nil) values: the inlined form
+		// of `if err := check(); err != nil { return }` — knowing err == nil identifies the edges that returned nil
+		if x.Op != token.EQL && x.Op != token.NEQ {
+			return nil
+		}
+		var other ssa.Value
+		if isNilConst(x.Y) {
+			other = x.X
+		} else if isNilConst(x.X) {
+			other = x.Y
+		} else {
+			return nil
+		}
+		p2, ok := other.(*ssa.Phi)
+		if !ok {
+			return nil
+		}
+		ph = p2
+		isNil := (x.Op == token.EQL) == pol
+		compatible = func(e ssa.Value) (bool, bool) {
+			switch {
+			case isNilConst(e):
+				return isNil, true
+			case definitelyNonNil(e):
+				return !isNil, true
+			}
+			return true, false
+		}
+	default:
 		return nil
 	}
-	var out []Guard
-	if _, isC := ph.Edges[k].(*ssa.Const); !isC {
-		out = append(out, Guard{ph.Edges[k], pol, g.If})
+	var live []int
+	for i, e := range ph.Edges {
+		if ok, _ := compatible(e); ok {
+			live = append(live, i)
+		}
 	}
-	pred := ph.Block().Preds[k]
-	out = append(out, guardsAtDepth(pred, depth-1)...)
-	// the edge pred→phi block itself, when pred ends in a branch
-	if len(pred.Instrs) > 0 {
-		if iff, ok := pred.Instrs[len(pred.Instrs)-1].(*ssa.If); ok && pred.Succs[0] != pred.Succs[1] {
-			out = append(out, Guard{iff.Cond, pred.Succs[0] == ph.Block(), iff})
+	if len(live) == 0 || len(live) == len(ph.Edges) {
+		return nil
+	}
+	// conditions common to every edge that can have supplied the value
+	var out []Guard
+	for n, k := range live {
+		var eg []Guard
+		if _, isC := ph.Edges[k].(*ssa.Const); !isC && isBool(ph.Type()) {
+			eg = append(eg, Guard{ph.Edges[k], pol, g.If})
+		}
+		pred := ph.Block().Preds[k]
+		eg = append(eg, guardsAtDepth(pred, depth-1)...)
+		if len(pred.Instrs) > 0 {
+			if iff, ok := pred.Instrs[len(pred.Instrs)-1].(*ssa.If); ok && pred.Succs[0] != pred.Succs[1] {
+				eg = append(eg, Guard{iff.Cond, pred.Succs[0] == ph.Block(), iff})
+			}
+		}
+		if n == 0 {
+			out = eg
+		} else {
+			out = intersectGuards(out, eg)
 		}
 	}
 	return out
@@ -552,8 +603,11 @@ func origins(v ssa.Value) []Atom {
 		seen[v] = true
 		switch x := v.(type) {
 		case *ssa.Phi:
-			for _, e := range x.Edges {
-				walk(e)
+			live := liveEdges(x)
+			for i, e := range x.Edges {
+				if live[i] {
+					walk(e)
+				}
 			}
 		case *ssa.ChangeType:
 			walk(x.X)
@@ -1639,4 +1693,150 @@ func reachFieldDef(a *ssa.Alloc, fld int, at ssa.Instruction, depth int) (ssa.Va
 		return nil, false
 	}
 	return vals[0], true
+}
+
+var liveEdgeMemo = map[*ssa.Phi][]bool{}
+
+// liveEdges: which incoming edges of a phi can supply the value at its uses. The idiom `v, err := …; if err != nil
+// { return }; use(v)` (and its inlined form, where v and err are sibling phis of one block) makes the edges on which the
+// sibling is a non-nil error irrelevant to every use of v: an edge is dead when a condition that holds at every use of
+// the phi contradicts the value a sibling phi of the same block takes on that edge.
+func liveEdges(ph *ssa.Phi) []bool {
+	if l, ok := liveEdgeMemo[ph]; ok {
+		return l
+	}
+	live := make([]bool, len(ph.Edges))
+	for i := range live {
+		live[i] = true
+	}
+	liveEdgeMemo[ph] = live // provisional (cycles)
+	refs := ph.Referrers()
+	if refs == nil || len(*refs) == 0 {
+		return live
+	}
+	// conditions common to all uses
+	var common []Guard
+	first := true
+	for _, ref := range *refs {
+		if _, isDbg := ref.(*ssa.DebugRef); isDbg {
+			continue
+		}
+		var gs []Guard
+		if rp, isPhi := ref.(*ssa.Phi); isPhi {
+			// used on the edges where it is an operand
+			var acc []Guard
+			firstE := true
+			for ei, e := range rp.Edges {
+				if e != ssa.Value(ph) {
+					continue
+				}
+				eg := knownAtEdge(rp.Block().Preds[ei], rp.Block())
+				if firstE {
+					acc, firstE = eg, false
+				} else {
+					acc = intersectGuards(acc, eg)
+				}
+			}
+			gs = acc
+		} else {
+			gs = guardsAt(ref.Block())
+		}
+		if first {
+			common, first = gs, false
+		} else {
+			common = intersectGuards(common, gs)
+		}
+		if len(common) == 0 {
+			return live
+		}
+	}
+	for _, g := range common {
+		cond, pol := g.Cond, g.Pol
+		for {
+			if u, ok := cond.(*ssa.UnOp); ok && u.Op == token.NOT {
+				cond, pol = u.X, !pol
+				continue
+			}
+			break
+		}
+		// boolean sibling
+		if sib, ok := cond.(*ssa.Phi); ok && sib != ph && sib.Block() == ph.Block() && len(sib.Edges) == len(ph.Edges) {
+			for i, e := range sib.Edges {
+				if c, isC := e.(*ssa.Const); isC && c.Value != nil && isBool(c.Type()) && constant.BoolVal(c.Value) != pol {
+					live[i] = false
+				}
+			}
+			continue
+		}
+		bo, ok := cond.(*ssa.BinOp)
+		if !ok || (bo.Op != token.EQL && bo.Op != token.NEQ) {
+			continue
+		}
+		var other ssa.Value
+		if isNilConst(bo.Y) {
+			other = bo.X
+		} else if isNilConst(bo.X) {
+			other = bo.Y
+		} else {
+			continue
+		}
+		sib, ok := other.(*ssa.Phi)
+		if !ok || sib == ph || sib.Block() != ph.Block() || len(sib.Edges) != len(ph.Edges) {
+			continue
+		}
+		isNil := (bo.Op == token.EQL) == pol // the sibling is nil at every use
+		for i, e := range sib.Edges {
+			switch {
+			case isNil && definitelyNonNil(e):
+				live[i] = false
+			case !isNil && isNilConst(e):
+				live[i] = false
+			}
+		}
+	}
+	any := false
+	for _, l := range live {
+		if l {
+			any = true
+		}
+	}
+	if !any {
+		for i := range live {
+			live[i] = true
+		}
+	}
+	return live
+}
+
+func intersectGuards(a, b []Guard) []Guard {
+	var out []Guard
+	for _, x := range a {
+		for _, y := range b {
+			if x.Cond == y.Cond && x.Pol == y.Pol {
+				out = append(out, x)
+				break
+			}
+		}
+	}
+	return out
+}
+
+// definitelyNonNil: a value that cannot be nil (a freshly built error or boxed concrete value).
+func definitelyNonNil(v ssa.Value) bool {
+	switch x := v.(type) {
+	case *ssa.MakeInterface:
+		if _, isPtr := x.X.Type().Underlying().(*types.Pointer); isPtr {
+			_, isAlloc := x.X.(*ssa.Alloc)
+			return isAlloc
+		}
+		return true
+	case *ssa.Alloc, *ssa.MakeSlice, *ssa.MakeMap, *ssa.MakeChan, *ssa.MakeClosure, *ssa.Function:
+		return true
+	case *ssa.Call:
+		switch calleeName(x.Common()) {
+		case "fmt.Errorf", "errors.New":
+			return true
+		}
+	}
+	return false
 }
